@@ -20,11 +20,14 @@ RULE = (
     "a list of names or for every name of the case (pooled names, both spellings of mangled names, every prefix.name, the core "
     "macros when and is-not); eval: record (hy.eval '(name True _K)) with no macros=, a literal dictionary of fresh macros, or "
     "(local-macros); snap: record the keys of (local-macros). Every macro expands to its own integer, so the definition chosen "
-    "is observable; an unresolved name is a NameError at run time. Three generators: (1) enumerated precedence grid: name in "
-    "{m1, when} x every subset of {module, outer scope, inner scope, macros=} defining it x inner scope kind x outer kind "
-    "{defn, class}, observed inside, after the inner and after the outer scope; (2) enumerated require grid: every shape x 4 "
-    "export configurations x every place (module, 8 scope kinds, 3 plain blocks) followed by calls of every name inside and "
-    "after the scope; (3) random histories (Hypothesis; drawn first, executed outside its call stack). Oracle = reference "
+    "is observable; an unresolved name is a NameError at run time. Four generators, interleaved: (1) enumerated precedence "
+    "grid: name in {m1, when} x every subset of {module, outer scope, inner scope, macros=} defining it x inner scope kind x "
+    "outer kind {defn, class}, observed inside, after the inner and after the outer scope; (2) enumerated require grid: 15 "
+    "require forms x 4 export configurations x every place (module, 8 scope kinds, 3 plain blocks) followed by calls of every "
+    "name inside and after the scope; (3) enumerated pragma grid: setting absent/False at module level x absent/False/True in "
+    "an outer and an inner scope, a core name defined or required before and after every pragma and scope end (quick tier: "
+    "one coordinate of each grid rotates instead of being multiplied out); (4) random histories of up to 24 (thorough 36) "
+    "operations (Hypothesis; drawn first, executed outside its call stack). Oracle = reference "
     "model: one dictionary per macro scope + module dictionary + core set; lookup order macros= -> scopes innermost first -> "
     "module -> core; a scope's dictionary is discarded at its close; documented name sets per require shape (bare/:as: every "
     "macro of the module under mangle(prefix.name); names/aliases as listed; *: the export list, else names without leading "
@@ -81,9 +84,10 @@ def _detail(plan, obs, d, mism):
 def explained_by_prefix_filter(case, bucket, detail):
     """Root cause 'a prefixed require ((require m) / (require m :as P)) skips the macros that (require m *) would skip':
     the case agrees in every observation with the reference model changed in exactly that rule."""
+    true = M.build(case)
+    if not any(b["how"] in ("require-bare", "require-as") and not b["exported"] for bs in true["allb"].values() for b in bs):
+        return False  # no prefixed require of the case meets a macro that * would skip: the rule plays no part
     plan = M.build(case, prefix_filtered=True)
-    if M.build(case)["final"] == plan["final"] and not any("(not-exported)" in (i["want"] or "") for i in M.build(case)["info"].values()):
-        return False  # the case never relies on the rule
     obs = M.execute(plan)
     return not M.compare(plan, obs)
 
@@ -325,6 +329,67 @@ def _one(ctx, case, origin):
 
 
 def shard(ctx):
+    """Each shard does its exploring in a fresh interpreter. The runner forks its shards from a process that has already
+    imported Hy and replayed the corpus; a forked child that then compiles and imports three modules per case spends most of
+    its time in page faults once several such children run side by side (measured here: 0.15 s per case in a fresh process,
+    0.8-3 s in 8-16 forked ones). The child runs _explore on an identical Ctx and hands its result back through a file."""
+    import os
+    import pickle
+    import subprocess
+    import sys
+    import tempfile
+    import time
+
+    if os.environ.get("VF_C35_INPROCESS") == "1":
+        return _explore(ctx)
+    os.makedirs(M.WORKROOT, exist_ok=True)
+    fd, path = tempfile.mkstemp(prefix="shard-%d-" % ctx.k, suffix=".pickle", dir=M.WORKROOT)
+    os.close(fd)
+    try:
+        left = max(1.0, ctx.deadline - time.time())
+        code = "import sys; from vf.props import c35; c35._worker(sys.argv[1:])"
+        p = subprocess.run([sys.executable, "-c", code, ctx.tier, str(ctx.seed), str(ctx.k), str(ctx.n), repr(left), path],
+                           stdout=subprocess.PIPE, stderr=subprocess.PIPE, text=True)
+        if p.returncode != 0:
+            raise RuntimeError("C35 shard %d worker failed (exit %s):\n%s" % (ctx.k, p.returncode, p.stderr[-3000:]))
+        with open(path, "rb") as f:
+            r = pickle.load(f)
+    finally:
+        try:
+            os.remove(path)
+        except OSError:
+            pass
+    ctx.evaluations += r["evaluations"]
+    ctx.nontrivial |= r["nontrivial"]
+    ctx.bulk_nontrivial += r["bulk_nontrivial"]
+    for c, v in r["hist"].items():
+        ctx.hist[c] = ctx.hist.get(c, 0) + v
+    for c, v in r["samples"].items():
+        lst = ctx.samples.setdefault(c, [])
+        lst.extend(v[: max(0, 2 - len(lst))])
+    if r["largest"] and (ctx.largest is None or r["largest"][0] > ctx.largest[0]):
+        ctx.largest = r["largest"]
+    for b, lst in r["failures"].items():
+        for size, case, detail in lst:
+            ctx.fail(case, b, detail)
+    ctx.timed_out = ctx.timed_out or r["timed_out"]
+    ctx.excluded_known += r["excluded_known"]
+    ctx.notes.extend(r["notes"])
+
+
+def _worker(argv):
+    import pickle
+
+    from vf import core
+
+    tier, seed, k, n, budget, path = argv
+    ctx = core.Ctx(PROP, tier, int(seed), int(k), int(n), float(budget))
+    _explore(ctx)
+    with open(path, "wb") as f:
+        pickle.dump(ctx.result(), f)
+
+
+def _explore(ctx):
     """The three enumerated grids (spread over the shards) and the random histories are interleaved, so that a run cut short
     by its time budget has still seen every generator."""
     full = not ctx.quick
@@ -339,7 +404,7 @@ def shard(ctx):
     def random_iter():
         # histories are drawn inside Hypothesis and executed afterwards: hy.macros.require and hy.eval walk the whole call
         # stack with inspect.stack(), which is very slow under the engine's deep stack
-        total = ctx.per_shard(2400, 40000)
+        total = ctx.per_shard(1600, 20000)
         rnd = 0
         while total > 0:
             rnd += 1
